@@ -60,8 +60,8 @@ impl Mem for HeapMem {
     }
 
     fn expand(&mut self, additional: usize){
-        let requested_size = self.size() + additional;
-        let new_size = cmp::max(self.size() * 2, requested_size);
+        let requested_size = self.size().checked_add(additional).expect("capacity overflow");
+        let new_size = cmp::max(self.size().saturating_mul(2), requested_size);
         self.resize(new_size);
     }
 }
@@ -86,11 +86,12 @@ impl MemResizable for HeapMem {
                         dangling(&self.element_layout)
                     } else {
                         // mul carefully, to prevent overflow.
+                        // (`Layout::from_size_align` rejects sizes that overflow `isize`)
                         let new_mem_size = self.element_layout.size()
-                            .checked_mul(new_size).unwrap();
-                        let new_mem_layout = Layout::from_size_align_unchecked(
+                            .checked_mul(new_size).expect("capacity overflow");
+                        let new_mem_layout = Layout::from_size_align(
                             new_mem_size, self.element_layout.align()
-                        );
+                        ).expect("capacity overflow");
 
                         if self.size == 0 {
                             // allocate
